@@ -29,7 +29,24 @@ def all_headers():
     return sorted(hs)
 
 
-def dump(tu_text, workdir, name, filt="PhQ", extra_flags=(), tolerate=None):
+def patched_include(workdir):
+    """A scratch copy of <repo>/include in which the three forward declarations inside class
+    ConstitutiveModel lose their default template argument (clang rejects the later redefinition
+    of the default that GCC accepts; nothing else is changed).  Returns the include directory."""
+    import shutil
+    dst = os.path.join(workdir, "include")
+    shutil.rmtree(dst, ignore_errors=True)
+    shutil.copytree(INC, dst)
+    p = os.path.join(dst, "PhQ", "ConstitutiveModel.hpp")
+    s = open(p).read()
+    s2, n = re.subn(r"(  template <typename NumericType) = double(>\n  class \w+;)", r"\1\2", s)
+    if n != 3:
+        raise AstError("patched_include: expected 3 forward declarations in ConstitutiveModel.hpp, found %d" % n)
+    open(p, "w").write(s2)
+    return dst
+
+
+def dump(tu_text, workdir, name, filt="PhQ", extra_flags=(), tolerate=None, inc=None):
     """tolerate: list that receives clang's error lines instead of raising (the AST is still dumped;
     declarations clang marks invalid are not lowered and are reported as outside the subset)."""
     os.makedirs(workdir, exist_ok=True)
@@ -39,7 +56,7 @@ def dump(tu_text, workdir, name, filt="PhQ", extra_flags=(), tolerate=None):
         f.write(tu_text)
     # address-space randomisation off: AST node ids (pointer values) are then identical across
     # invocations on the same TU, so dumps taken with different -ast-dump-filter values can be merged
-    cmd = ["setarch", "x86_64", "-R", "clang++", "-std=c++17", "-I" + INC, "-fsyntax-only", "-Wno-everything",
+    cmd = ["setarch", "x86_64", "-R", "clang++", "-std=c++17", "-I" + (inc or INC), "-fsyntax-only", "-Wno-everything",
            "-Xclang", "-ast-dump=json"]
     if filt:
         cmd += ["-Xclang", "-ast-dump-filter=" + filt]
